@@ -107,9 +107,10 @@ def copy2 (src dst : Str) (chunks : List Bytes) : List Step :=
   [.openRead src, .creatTrunc dst] ++ chunks.map (.append dst) ++ [.close dst, .setMeta dst, .setMeta dst]
 
 /-- The `if args.backup:` block shared by the three tools:
-`if exists(bak): remove(bak)` then `copy2(target, bak)`. -/
-def backupSteps (fs : FS) (t : Str) (oc : List Bytes) : List Step :=
-  [.stat (bakOf t)] ++ (if (fs (bakOf t)).isSome then [.unlink (bakOf t)] else []) ++ copy2 t (bakOf t) oc
+`if exists(bak): remove(bak)` then `copy2(target, bak)`.  `saw` is what `os.path.exists` answered
+(it answers `False` also when the `stat` call itself fails, so it is not tied to the file system). -/
+def backupSteps (saw : Bool) (t : Str) (oc : List Bytes) : List Step :=
+  [.stat (bakOf t)] ++ (if saw then [.unlink (bakOf t)] else []) ++ copy2 t (bakOf t) oc
 
 /-- `with open(t, 'w') as f: dump(data, f)` — the new text reaches the file in chunks `nc`. -/
 def writeSteps (t : Str) (nc : List Bytes) : List Step :=
@@ -131,14 +132,14 @@ def writePart (w : Writer) (t : Str) (nc : List Bytes) : List Step :=
 
 /-- A complete save: optional backup, then the write part.  `oc` are the chunks in which the
 backup copy travels (their concatenation is what is read from the target), `nc` those of the new text. -/
-def saveSteps (fs : FS) (w : Writer) (backup : Bool) (t : Str) (oc nc : List Bytes) : List Step :=
-  (if backup then backupSteps fs t oc else []) ++ writePart w t nc
+def saveSteps (saw : Bool) (w : Writer) (backup : Bool) (t : Str) (oc nc : List Bytes) : List Step :=
+  (if backup then backupSteps saw t oc else []) ++ writePart w t nc
 
 /-- yaml-set's `except AssertionError` path of `save_to_yaml_file`: the dump stops after chunks
 `nc`, the file is closed, re-opened, the temporary copy (chunks `rc`) is written back, and the
 backup — if one was taken — is removed; the tool then exits with status 3. -/
-def restoreSteps (fs : FS) (backup : Bool) (t : Str) (oc nc rc : List Bytes) : List Step :=
-  (if backup then backupSteps fs t oc else []) ++
+def restoreSteps (saw : Bool) (backup : Bool) (t : Str) (oc nc rc : List Bytes) : List Step :=
+  (if backup then backupSteps saw t oc else []) ++
   ([.openRead t, .creatTrunc t] ++ nc.map (.append t) ++ [.close t] ++ writeSteps t rc) ++
   (if backup then [.unlink (bakOf t)] else [])
 
@@ -166,6 +167,7 @@ structure Oracle where
   applyOk : Bool     -- the change / the merge is possible (incl. anchor conflicts with `stop`)
   renderOk : Bool    -- yaml-merge: the merged document converts to the output format
   dumpOk : Bool      -- yaml-set, YAML writer: the dump raises no `AssertionError` (else restore, exit 3)
+  statOk : Bool      -- the `exists(bak)` probe succeeds (else `os.path.exists` answers False)
   deriving DecidableEq, Repr, Inhabited
 
 structure Outcome where
@@ -183,8 +185,8 @@ def runSet (o : Oracle) (fs : FS) (json backup : Bool) (t : Str) (oc nc rc : Lis
   if !o.queryOk then ⟨1, .query, [.openRead t]⟩ else
   if !o.checkOk then ⟨20, .check, [.openRead t]⟩ else
   if !o.applyOk then ⟨1, .apply, [.openRead t]⟩ else
-  if !json && !o.dumpOk then ⟨3, .save, .openRead t :: restoreSteps fs backup t oc nc rc⟩ else
-  ⟨0, .done, .openRead t :: saveSteps fs (if json then .setJson else .setYaml) backup t oc nc⟩
+  if !json && !o.dumpOk then ⟨3, .save, .openRead t :: restoreSteps (o.statOk && (fs (bakOf t)).isSome) backup t oc nc rc⟩ else
+  ⟨0, .done, .openRead t :: saveSteps (o.statOk && (fs (bakOf t)).isSome) (if json then .setJson else .setYaml) backup t oc nc⟩
 
 /-- Where yaml-merge writes. -/
 inductive Dest
@@ -218,7 +220,7 @@ def runMerge (o : Oracle) (fs : FS) (dest : Dest) (ins : List Str) (mergeExit : 
     if !o.loadOk then ⟨mergeExit + 1, .load, .stat t :: reads⟩ else
     if !o.applyOk then ⟨mergeExit + 1, .apply, .stat t :: reads⟩ else
     if !o.renderOk then ⟨1, .render, .stat t :: reads⟩ else
-    ⟨0, .done, .stat t :: reads ++ saveSteps fs .mergeOverwrite backup t oc nc⟩
+    ⟨0, .done, .stat t :: reads ++ saveSteps (o.statOk && (fs (bakOf t)).isSome) .mergeOverwrite backup t oc nc⟩
   | .stdout =>
     if !o.loadOk then ⟨mergeExit + 1, .load, reads⟩ else
     if !o.applyOk then ⟨mergeExit + 1, .apply, reads⟩ else
@@ -227,11 +229,11 @@ def runMerge (o : Oracle) (fs : FS) (dest : Dest) (ins : List Str) (mergeExit : 
 
 /-- eyaml-rotate-keys on one file: `changed` says whether at least one value was re-encrypted
 (`file_changed`); a file without secrets is neither backed up nor written. -/
-def runRotateFile (fs : FS) (isFile loadOk changed backup : Bool) (t : Str) (oc nc : List Bytes) :
+def runRotateFile (saw : Bool) (isFile loadOk changed backup : Bool) (t : Str) (oc nc : List Bytes) :
     List Step :=
   if !isFile then [.stat t] else
   if !loadOk then [.stat t, .openRead t] else
   if !changed then [.stat t, .openRead t] else
-  [.stat t, .openRead t] ++ saveSteps fs .rotate backup t oc nc
+  [.stat t, .openRead t] ++ saveSteps saw .rotate backup t oc nc
 
 end Ypv.Save
